@@ -425,7 +425,9 @@ def runCore (p : Program) (ff0 : Bool) : RS × Bool :=
     let ok4 := s4.excs.length == s3.excs.length      -- `_run_cleanups` returned without any cleanup failing
     if s4.ff then (got s4 forcedFailure, false) else (s4, ok2 && ok3 && ok4)
   else
-    (runCleanups s1, false)
+    let s2 := runCleanups s1
+    -- the forced failure is raised here too: an expectation that failed before setUp gave up still fails the test
+    if s2.ff then (got s2 forcedFailure, false) else (s2, false)
 
 def handlers (p : Program) : Handlers := p.userHandlers ++ defaultHandlers
 
